@@ -83,15 +83,17 @@ func configs(thorough bool) []Config {
 		{"xfer(x,y)", xfer(x, y)}, {"xfer(y,x)", xfer(y, x)},
 	}
 	isInv := func(n string) bool { return strings.HasPrefix(n, "xfer") || strings.HasPrefix(n, "read2") }
+	quickCombos = 2 // quick: the two mixed timeout settings (1,50) and (50,1) for two-variable pairs; thorough: all four
 	for i := range fam {
 		for j := i; j < len(fam); j++ {
 			add("2x1:"+fam[i].n+"|"+fam[j].n, -1, isInv(fam[i].n) && isInv(fam[j].n), Script{fam[i].s}, Script{fam[j].s})
 		}
 	}
+	quickCombos = 0
 	// (2) two contexts, two sections each, unbounded preemptions
 	add("2x2:inc(x);inc(x)|inc(x);inc(x)", -1, false, Script{inc(x), inc(x)}, Script{inc(x), inc(x)})
 	add("2x2:inc(x);inc(y)|inc(y);inc(x)", -1, false, Script{inc(x), inc(y)}, Script{inc(y), inc(x)})
-	quickCombos = 2 // the two largest quick configurations: timeouts (1,1) and (50,50) only; all four in thorough
+	quickCombos = 2 // the largest quick configuration: the two mixed timeout settings only; all four in thorough
 	add("2x2:cp(x,y);blind(x)|cp(y,x);blind(y)", -1, false, Script{cp(x, y), blind(x)}, Script{cp(y, x), blind(y)})
 	quickCombos = 0
 	if thorough {
@@ -135,7 +137,9 @@ func configs(thorough bool) []Config {
 	quickCombos = 1
 	persist("inc(x)|inc(x)", Script{inc(x)}, Script{inc(x)})
 	persist("iw(1)|rt", Script{iw(1)}, Script{rt()})
-	persist("iwA(1)|rt", Script{iwA(1)}, Script{rt()})
+	if thorough {
+		persist("iwA(1)|rt", Script{iwA(1)}, Script{rt()})
+	}
 	quickCombos = 0
 	// (3) three contexts, preemption bound 2 (thorough: then 3)
 	bounds := []int{2}
@@ -368,8 +372,8 @@ func execute(t *testing.T, cfg Config, c bubble.Chooser, strict bool) execOut {
 			}
 		}
 	})
-	if out.Hang != nil {
-		if out.Hang.Deadlock && !out.Hang.Draining {
+	if out.Hang != nil && !out.Hang.Draining { // (a hang while draining: the driver's results stand)
+		if out.Hang.Deadlock {
 			res.fail = &Failure{"deadlock", "the execution stopped making progress: " + out.Hang.Reason}
 			res.detail = out.Hang
 			return res
